@@ -12,6 +12,10 @@
 // or at a random position inside a batch of valid changes.  After every call: error class, AddResult.Added, Heads(),
 // IterateRoot ids, Storage.GetAfterOrder ids, Storage.Has of every batch element.  The validity flags handed to the
 // model are computed here with cidutil.VerifyCid / proto decoding / PubKeyFromProto / PubKey.Verify on the bytes.
+//
+// Second case kind (roots.go): root worlds -- whole trees (root alone / root + changes, the root honest or mutated)
+// delivered through every construction path (eager and deferred storage + the tree builders, ValidateRawTreeDefault,
+// ValidateFilterRawTree).
 package main
 
 import (
@@ -31,6 +35,9 @@ import (
 type rawT = *treechangeproto.RawTreeChangeWithId
 
 type desc struct {
+	Kind    string   `json:"kind,omitempty"` // "" = AddRawChanges scenario, "roots" = root world (roots.go)
+	From    int      `json:"from,omitempty"`
+	To      int      `json:"to,omitempty"`
 	Seed    uint64   `json:"seed"`
 	Idx     uint64   `json:"idx"`
 	Size    int      `json:"size"`
@@ -595,15 +602,23 @@ func (rn *runner) deliveries(s *scen, tree *Tree, recv list.AclList, recvLen int
 func main() {
 	o := vlib.ParseFlags()
 	vlib.Quiet()
-	w := vlib.NewWriter(o.Out, "C02_run", 12)
+	w := vlib.NewWriter(o.Out, "C02_run", 14)
 	rn := &runner{w: w, db: &DB{}}
 	defer rn.db.Close()
-	rule := "a scenario is non-trivial if at least one delivery attached a change (every scenario also contains rejected deliveries, counted in the distribution); distinct = distinct (seed, index)"
+	rule := "a scenario is non-trivial if at least one delivery attached a change (every scenario also contains rejected deliveries, counted in the distribution); a root-world case (10 root deliveries sharing one ACL) is non-trivial if at least one delivery returned a live tree; distinct = distinct (seed, index[, first delivery])"
 
 	if o.Replay != "" {
 		for _, raw := range vlib.ReadReplay(o.Replay) {
 			var d desc
 			if json.Unmarshal(raw, &d) != nil || d.Size == 0 {
+				continue
+			}
+			if d.Kind == "roots-keys" {
+				rn.rootWorldKeys(d.Seed, d.Idx, d.Size, d.From, d.To)
+				continue
+			}
+			if d.Kind == "roots" {
+				rn.rootWorld(d.Seed, d.Idx, d.Size, d.From, d.To)
 				continue
 			}
 			rn.scenario(d.Seed, d.Idx, d.Size)
@@ -617,6 +632,23 @@ func main() {
 		n = 2500
 	}
 	n *= o.Budget
+	// whole trees delivered through every construction path, the root being the delivered change under test (roots.go)
+	worlds, perWorld := 8, 60
+	if o.Tier == "thorough" {
+		worlds = 80
+	}
+	worlds *= o.Budget
+	for i := 0; i < worlds; i++ {
+		rn.rootWorld(o.Seed, uint64(i), perWorld, 0, 0)
+	}
+	// the same through the filtering validator in a real-key ACL: receiver = member with every key / removed member / non-member
+	kworlds := 3
+	if o.Tier == "thorough" {
+		kworlds = 30
+	}
+	for i := 0; i < kworlds*o.Budget; i++ {
+		rn.rootWorldKeys(o.Seed, uint64(i), 20, 0, 0)
+	}
 	for i := 0; i < n; i++ {
 		rn.scenario(o.Seed, uint64(i), size)
 	}
